@@ -389,10 +389,9 @@ inline void pool_nested(const vf::opts &o, vf::report &R, uint64_t rounds) {
 // nobody leaves a job queued for ever while a worker sits idle (hang verdict).
 inline cocls::async<void> pd_await_pool(cocls::thread_pool &A, std::atomic<int> *started, std::atomic<int> *next_started, std::atomic<int> &done) {
     co_await A;
-    started->store(1, std::memory_order_release);
-    unsigned spins = 0;
-    while (next_started && !next_started->load(std::memory_order_acquire)) { if (++spins < 2000) vf::cpu_relax(); else usleep(100); }
-    done.fetch_add(1, std::memory_order_relaxed);
+    started->store(1, std::memory_order_release); started->notify_all();
+    if (next_started) next_started->wait(0, std::memory_order_acquire); // really blocked (futex): a lost job is a provable hang
+    done.fetch_add(1, std::memory_order_relaxed); done.notify_all();
 }
 inline void pool_dependent(const vf::opts &o, vf::report &R, uint64_t rounds) {
     vf::rng master(vf::mix(o.seed, 0x311));
@@ -413,18 +412,16 @@ inline void pool_dependent(const vf::opts &o, vf::report &R, uint64_t rounds) {
             for (int i = 0; i < m; i++) {
                 std::atomic<int> *me = &started[i], *next = i + 1 < m ? &started[i + 1] : nullptr;
                 auto body = [me, next, &done]() {
-                    me->store(1, std::memory_order_release);
-                    unsigned spins = 0;
-                    while (next && !next->load(std::memory_order_acquire)) { if (++spins < 2000) vf::cpu_relax(); else usleep(100); }
-                    done.fetch_add(1, std::memory_order_relaxed);
+                    me->store(1, std::memory_order_release); me->notify_all();
+                    if (next) next->wait(0, std::memory_order_acquire);
+                    done.fetch_add(1, std::memory_order_relaxed); done.notify_all();
                 };
                 // (callables handed over as LVALUES are kept by reference by the library's function wrapper - hand over a copy as an rvalue)
                 if (kinds[i] == 0) { auto copy = body; A.run_detached(std::move(copy)); }
                 else if (kinds[i] == 1) futs.push_back(std::unique_ptr<cocls::future<int>>(new cocls::future<int>(A.run([body]() -> int { body(); return 5; }))));
                 else pd_await_pool(A, me, next, done).detach();
             }
-            unsigned spins = 0;
-            while (done.load(std::memory_order_relaxed) < m) { if (++spins < 4000) vf::cpu_relax(); else usleep(200); } // watchdog: no progress + everybody asleep = hang
+            for (int d; (d = done.load(std::memory_order_relaxed)) < m;) done.wait(d, std::memory_order_relaxed); // watchdog: no progress + everybody asleep = hang
             for (auto &f : futs) f->sync();
         }
         R.cases++;
